@@ -2,7 +2,10 @@
 
 package connect
 
-import "bytes"
+import (
+	"bytes"
+	"context"
+)
 
 // Hooks for the verification harness (/verif); compiled only with -tags verif.
 
@@ -47,4 +50,16 @@ func verifCodecPut(pool *compressionPool, object any) {
 	if hook := VerifCodecPoolHook; hook != nil {
 		hook(false, pool, object)
 	}
+}
+
+// VerifUnaryConnHook, when set, may wrap the connection a unary call runs on
+// (streaming calls can be observed with an ordinary interceptor; the
+// connection of CallUnary is not exposed to interceptors).
+var VerifUnaryConnHook func(ctx context.Context, conn StreamingClientConn) StreamingClientConn
+
+func verifUnaryConn(ctx context.Context, conn StreamingClientConn) StreamingClientConn {
+	if hook := VerifUnaryConnHook; hook != nil {
+		return hook(ctx, conn)
+	}
+	return conn
 }
